@@ -278,8 +278,11 @@ class C19(Check):
                     return f(t[1:-1].split(';'), sep=other)
                 import ast as _ast
                 return _ast.literal_eval(t)
-            r = self.call([f'outer{sep}{{a{other}1;b{other}"x"}}', f'n{sep}2', f'm{sep}{{k{other}(1,)}}', f'"z"{sep}3'], sep=sep, parse=parser)
-            want = {'outer': {'a': 1, 'b': 'x'}, 'n': 2, 'm': {'k': (1,)}, 'z': 3}
+            # (the second value makes the nested call fail - no separator in 'plain' - so the parser fails and the string stays)
+            bad = f'{{a{other}1;plain}}'
+            r = self.call([f'outer{sep}{{a{other}1;b{other}"x"}}', f'bad{sep}{bad}', f'n{sep}2', f'm{sep}{{k{other}(1,)}}',
+                           f'"z"{sep}3', f'w{sep}p{other}q'], sep=sep, parse=parser)
+            want = {'outer': {'a': 1, 'b': 'x'}, 'bad': bad, 'n': 2, 'm': {'k': (1,)}, 'z': 3, 'w': f'p{other}q'}
             if r[0] != 'ok' or canon(r[1]) != canon(want):
                 res.violate('C19:reentrant-call', 'a parser that itself uses parse_to_dict changed the outer call\'s result',
                             got=repr(r)[:200], want=repr(want))
@@ -317,6 +320,10 @@ class C19(Check):
             shapes['mapping'] = {kt: vt for (kt, _), (vt, _) in frs}
         if all(sep not in kt for (kt, _), _ in frs):
             shapes['strings'] = [kt + sep + vt for (kt, _), (vt, _) in frs]
+        if 'strings' in shapes and len(frs) >= 2:
+            # pairs and strings mixed in one list: still one item after the other (the last of equal keys wins)
+            shapes['mixed'] = [p_ if i % 2 == 0 else s_ for i, (p_, s_) in enumerate(zip(shapes['pairs'], shapes['strings']))]
+            shapes['mixed_other_way'] = [s_ if i % 2 == 0 else p_ for i, (p_, s_) in enumerate(zip(shapes['pairs'], shapes['strings']))]
         # the same items as one-shot iterables (a generator, an iterator, a map object): consumed exactly once
         pick = (len(frs) + case['items'][0][0] if case['items'] else 0) % 3
         if pick == 0:
